@@ -154,6 +154,16 @@ def writeYq (s : List Nat) : List (BitVec 8) :=
   let bytes := encodeAll s
   writeYqBytes (bytes.length + 1) bytes
 
+/-- What `write_json_body_yq` does to one character (the byte-level writer, seen per character):
+short escapes for `"` `\\` `\n` `\r` `\t`, `\u00xx` for the other C0 controls, everything else raw
+(incl. DEL and all non-ASCII).  `Props/C09.yq_writer_eq` proves `writeYq` equal to this. -/
+def yqChar (c : Nat) : List Nat :=
+  if c = 34 then [92, 34] else if c = 92 then [92, 92] else if c = 10 then [92, 110]
+  else if c = 13 then [92, 114] else if c = 9 then [92, 116] else if c < 0x20 then shortU c else [c]
+
+/-- The byte-level writer per input byte: escape the bytes the scanner stops on, copy the rest. -/
+def yqByte (b : BitVec 8) : List (BitVec 8) := if needsEscape b then yqByteEsc b else [b]
+
 /-! ### spec: JSON string body decoder (RFC 8259 §7) over scalar values -/
 
 def hexVal (c : Nat) : Option Nat :=
